@@ -78,7 +78,7 @@ class Harness:
         c.pos += n
         tags = [(c.stream, start + i) for i in range(n)]
         if self.sample is not None:
-            self.samples[self.sample]["tags"].update((t, "stream") for t in tags)
+            self.samples[self.sample]["tags"].update(tags)
         self.last_tags = tags
         return tags
 
@@ -118,7 +118,7 @@ class Harness:
         t = (c.pystream, c.pypos)
         c.pypos += 1
         if self.sample is not None:
-            self.samples[self.sample]["tags"].add((t, "stream"))
+            self.samples[self.sample]["tags"].add(t)
         return int(_u(*t) * (1 << k))
 
     def default_rng(self, s=None):
@@ -279,12 +279,12 @@ class Installed:
                 pos = p0
                 for k in range(nb):
                     for r in range(mc_paths):
-                        rows[r].add(((s0, pos), "pre-drawn"))
+                        rows[r].add((s0, pos))
                         pos += 1
                 per = dim * nb
                 for r in range(mc_paths):
                     for i in range(per):
-                        rows[r].add(((s0, pos), "pre-drawn"))
+                        rows[r].add((s0, pos))
                         pos += 1
                 if pos != p1:
                     rows = [set() for _ in range(mc_paths)]
@@ -310,7 +310,9 @@ class Installed:
                         popped = max(n0[0] - len(q), (n0[1] - len(b)) if b is not None else 0)
                         for _ in range(popped):
                             if rows:
-                                hh.samples[sid]["tags"].update(rows.popleft())
+                                row = rows.popleft()
+                                hh.samples[sid]["tags"].update(row)
+                                hh.samples[sid].setdefault("row_tags", set()).update(row)
                         hh.samples[sid]["popped"] = popped
                     if outer is None:
                         hh.end_sample()
